@@ -1297,7 +1297,8 @@ def run(ck):
         "fraction_total": round(n_tot / n_units, 4), "fraction_object_like": round(n_obj / n_units, 4),
         "note": "units with function-like macros are covered by the component theorems (define_*, macroequal_*, "
                 "split_args_correct, expandfunc_is_collect, ctxnext_delivers_flat, lazy_substitution_correct, "
-                "stringize_correct, painted_never_expands) and by the differential run, not by a proved equivalence"}
+                "function_like_step_correct, stringize_correct, painted_never_expands) and by the differential run, "
+                "not by a proved whole-stream equivalence"}
     ck.cov["diagnostic_classes_hit"] = X.errs
     ck.cov["model_events_and_reference_flags"] = X.events
     ck.cov["known_finding_hits"] = X.known
@@ -1327,8 +1328,13 @@ META = {
              "parameter are rejected); macroequal decides identity of definitions up to white space (6.10.3p2 full "
              "strength is refuted: known finding macroequal-ignores-space); the string built for #param is the "
              "6.10.3.2p2 spelling; the argument loops split at top-level commas with the variadic tail joined and "
-             "stop at the matching parenthesis; a surplus argument is rejected; painted identifiers are never "
-             "expanded; more fuel never changes a completed result.  The full model=reference statement for "
+             "stop at the matching parenthesis, also as executed inside exec (expandfunc_is_collect); every "
+             "ctxnext() delivers the next token of the eagerly substituted stack and that substitution is the "
+             "reference's subst (ctxnext_delivers_flat, lazy_substitution_correct); for one simple function-like "
+             "invocation the model's new context equals the list the reference continues with "
+             "(function_like_step_correct); object-like expansion terminates within an explicit fuel bound "
+             "(object_like_terminates, object_like_correct_total); a surplus argument is rejected; painted "
+             "identifiers are never expanded; more fuel never changes a completed result.  The full model=reference statement for "
              "function-like macros is stated and refuted by the recorded known findings.  Tied to /repo on every "
              "run: the real preprocessor's next() stream (all of /repo linked, one child per input, ASan+UBSan on a "
              "share) for generated macro sets inside free token sequences and valid C programs is compared with the "
@@ -1341,10 +1347,11 @@ META = {
              "later, the reference follows the text of 6.10.3.4p2 and both compilers rather than Prosser's "
              "persistent hide sets, and reports when the two readings differ); the scanner model of C13 for "
              "tokenisation; the macro table as a dictionary (C16/C20).  Not proved: model = reference for "
-             "function-like macros in general (checked by the run; the excluded classes are the known findings "
+             "function-like macros as a whole-stream statement (the invocation step and its ingredients are proved; "
+             "checked by the run; the excluded classes are the known findings "
              "stringize-nested-call, empty-expansion-space, depth-count-confusion, pragma-funclike-lookahead, "
-             "directive-between-name-and-paren), the link between the pure argument loop `collect` and "
-             "expandfunc inside exec, termination without fuel.  Out of domain: directives inside the arguments "
+             "directive-between-name-and-paren), pre-expansion of arguments that contain macro names, termination "
+             "of function-like expansion without fuel.  Out of domain: directives inside the arguments "
              "of an invocation (undefined, 6.10.3p11) and the 6.10.3.4p4 nesting case (unspecified)."),
     "technique": "Lean 4 proof (simulation of the context stack against the hide-set algorithm, invariants, "
                  "fun_induction on the definition loops, grind for monotonicity of the open-recursive bodies, kernel "
